@@ -4,5 +4,6 @@ Record fflags := {
   res_put_first : bool;
   end_put_first : bool;
   final_breaks : bool;
-  closes_at_end : bool
+  closes_at_end : bool;
+  final_marks : bool      (* the final pair, when no end marker has been forwarded, makes the thread put one before it leaves *)
 }.
